@@ -78,17 +78,18 @@ FirstRTClause(ls, i, wp) ==
     ELSE LET c == RTLineClause(ls[i], lines[i].den, wp) IN
          IF c # "" THEN "line" \o ToString(i) \o ":" \o c ELSE FirstRTClause(ls, i + 1, wp)
 
-AllExact(wp) == \A i \in 1..Len(lines) :
-                   IF lines[i].den.param.some THEN wp /\ NumSig(lines[i].den.param.v) <= 3 ELSE TRUE
+AllExact(o) == \A i \in 1..Len(lines) : ExactUnder(lines[i].den, o)
 RECURSIVE FirstRTsClause(_, _)
 FirstRTsClause(rts, j) ==
     IF j > Len(rts) THEN ""
     ELSE LET r == rts[j]
-             c == IF r.raised THEN "rejected"
+             o == Opt(r.wp, r.wn)
+             c == IF ~Applicable(o) THEN "option"
+                  ELSE IF r.raised THEN "rejected"
                   ELSE IF Len(r.lines) # Len(lines) THEN "nlines"
-                  ELSE LET lc == FirstRTClause(r.lines, 1, r.withparam) IN
+                  ELSE LET lc == FirstRTClause(r.lines, 1, r.wp) IN
                        IF lc # "" THEN lc
-                       ELSE IF AllExact(r.withparam) /\ ~r.eq THEN "not-equal"
+                       ELSE IF AllExact(o) /\ ~r.eq THEN "not-equal"
                        ELSE ""
          IN  IF c # "" THEN "rt-" \o r.kind \o ":" \o c ELSE FirstRTsClause(rts, j + 1)
 
@@ -104,7 +105,9 @@ ObsClause(o) ==
          ELSE IF ~o.copy_eq THEN "copy-neq"
          ELSE LET cc == FirstLineClause(o.copy_lines, 1) IN
               IF cc # "" THEN "copy:" \o cc
-              ELSE IF stage = "final" THEN (IF o.rts = <<>> THEN "no-rt" ELSE FirstRTsClause(o.rts, 1))
+              ELSE IF stage = "final"
+                   THEN (IF \E q \in SeqSet(OptSeq) : ~\E j \in 1..Len(o.rts) : Opt(o.rts[j].wp, o.rts[j].wn) = q
+                         THEN "no-rt" ELSE FirstRTsClause(o.rts, 1))
               ELSE ""
 
 ResultOK(e) == Terminal /\ ObsClause(e.obs) = ""
